@@ -308,7 +308,7 @@ def _library_call(case, ctx):
             after = snapshot()
             bad = [k for k in after if after[k] != inside[k]]
             ctx.expect("library_call_keeps_block_values", not bad, f"{case['op']} inside `with {name}({_enc(kw)})` changed: " + "; ".join(f"{k}: {inside[k]!r} -> {after[k]!r}" for k in bad[:4]) + (f" (operation raised {raised})" if raised else ""),
-                       fields=bad, op=case["op"])
+                       fields=bad, owners=sorted({_owner(k) for k in bad}), op=case["op"])
     except Exception:
         ctx.reject("settings block refused at entry")
         return
@@ -322,7 +322,7 @@ def _library_call(case, ctx):
             raised = type(e).__name__
         end = snapshot()
         bad = [k for k in end if end[k] != _S["defaults"][k]]
-        ctx.expect("library_call_keeps_block_values", not bad, f"{case['op']} built inside `with {name}({_enc(kw)})` and used after the block changed: " + "; ".join(f"{k}={end[k]!r} default={_S['defaults'][k]!r}" for k in bad[:4]), fields=bad, op=case["op"])
+        ctx.expect("library_call_keeps_block_values", not bad, f"{case['op']} built inside `with {name}({_enc(kw)})` and used after the block changed: " + "; ".join(f"{k}={end[k]!r} default={_S['defaults'][k]!r}" for k in bad[:4]), fields=bad, owners=sorted({_owner(k) for k in bad}), op=case["op"])
     if raised:
         ctx.hit("info:library_operation_raised_under_setting")
     ctx.cell(("library-call", case["op"], name, case["when"]), nontrivial=True)
